@@ -8,6 +8,7 @@ import (
 	"sort"
 	"strings"
 
+	"github.com/apmckinlay/gsuneido/core"
 	"github.com/apmckinlay/gsuneido/db19"
 	"github.com/apmckinlay/gsuneido/db19/tools"
 
@@ -376,6 +377,9 @@ func (h *harness) checkTools(final *snap) bool {
 		return false
 	}
 	h.ri.Count("tools.dump-load", 1)
+	if !h.checkLoadRefuses(final, dump, g) {
+		return false
+	}
 	// compact a copy
 	comp := filepath.Join(h.dir, "compact.db")
 	if err := copyFile(h.file, comp); err != nil {
@@ -440,5 +444,151 @@ func (h *harness) checkTools(final *snap) bool {
 			h.ri.Count("tools.table-dump-load", 1)
 		}
 	}
+	return !h.s.Over()
+}
+
+// checkLoadRefuses: loading must refuse data that violates a key or unique index. The dump
+// just written is edited so that an ordinary index over columns that hold the same values in
+// two rows is declared a key (or unique index); LoadDatabase, and LoadTable for that table,
+// must report an error.
+func (h *harness) checkLoadRefuses(final *snap, dump string, g *simrt.Stream) bool {
+	type cand struct{ table, from, to string }
+	var cands []cand
+	var names []string
+	for n := range final.Tables {
+		names = append(names, n)
+	}
+	sort.Strings(names)
+	for _, tn := range names {
+		t := final.Tables[tn]
+		for _, ix := range t.Idx {
+			if ix.Mode != 'i' || ix.Fk.Table != "" {
+				continue
+			}
+			var pos []int
+			for _, c := range ix.Cols {
+				for i, pc := range t.Cols {
+					if pc == c {
+						pos = append(pos, i)
+					}
+				}
+			}
+			if len(pos) != len(ix.Cols) {
+				continue
+			}
+			seen := map[string]bool{}
+			dup := false
+			for _, raw := range t.Rows {
+				rec := core.Record(raw)
+				var sb strings.Builder
+				empty := true
+				for _, i := range pos {
+					v := rec.GetRaw(i)
+					if v != "" {
+						empty = false
+					}
+					sb.WriteString(v)
+					sb.WriteByte(1)
+				}
+				if empty {
+					continue
+				}
+				if seen[sb.String()] {
+					dup = true
+					break
+				}
+				seen[sb.String()] = true
+			}
+			if dup {
+				cols := "(" + strings.Join(ix.Cols, ",") + ")"
+				cands = append(cands, cand{tn, "index" + cols, []string{"key", "index unique"}[g.Choose(2)] + cols})
+			}
+		}
+	}
+	if len(cands) == 0 {
+		return true
+	}
+	c := cands[g.Choose(len(cands))]
+	edit := func(path string, multi bool) (string, bool) {
+		data, err := os.ReadFile(path)
+		if err != nil {
+			h.s.Machine("cannot read %s: %v", path, err)
+			return "", false
+		}
+		// the schema line of the table
+		start := 0
+		if multi {
+			start = strings.Index(string(data), "====== "+c.table+" (")
+		} else {
+			start = strings.Index(string(data), "====== (")
+		}
+		if start < 0 {
+			h.s.Machine("schema line of %s not found in %s", c.table, path)
+			return "", false
+		}
+		end := start + strings.IndexByte(string(data[start:]), '\n')
+		line := string(data[start:end])
+		i := strings.Index(line, " "+c.from)
+		if i < 0 || strings.HasPrefix(line[i+1+len(c.from):], " in ") {
+			return "", true // (rendered differently: skip)
+		}
+		line = line[:i+1] + c.to + line[i+1+len(c.from):]
+		out := path + ".bad"
+		if err := os.WriteFile(out, append(append(append([]byte(nil), data[:start]...), line...), data[end:]...), 0o644); err != nil {
+			h.s.Machine("cannot write %s: %v", out, err)
+			return "", false
+		}
+		return out, true
+	}
+	bad, ok := edit(dump, true)
+	if !ok {
+		return false
+	}
+	if bad != "" {
+		target := filepath.Join(h.dir, "loadedbad.db")
+		os.Remove(target)
+		var err error
+		res := try(func() { _, _, err = tools.LoadDatabase(bad, target, "", "") })
+		if res == "" && err == nil {
+			h.fail("C20/tools", "C20/tools/load-accepted-duplicate", "LoadDatabase accepted a dump in which table %s declares %s although two rows hold the same values in those columns", c.table, c.to)
+			return false
+		}
+		h.ri.Count("tools.load-refused-duplicate", 1)
+		os.Remove(target)
+		os.Remove(bad)
+	}
+	// the same through the single table path
+	t := final.Tables[c.table]
+	for _, ix := range t.Idx {
+		if ix.Fk.Table != "" || len(ix.FkToHere) > 0 {
+			return !h.s.Over()
+		}
+	}
+	tfile := filepath.Join(h.dir, c.table+".su") // LoadTable reads <table>.su in the current directory (the run's directory)
+	var err error
+	if res := try(func() { _, err = tools.DumpTable(h.file, c.table, tfile) }); res != "" || err != nil {
+		h.fail("C20/tools", "", "DumpTable %s failed: %v %v", c.table, res, err)
+		return false
+	}
+	bad, ok = edit(tfile, false)
+	if !ok {
+		return false
+	}
+	if bad != "" {
+		if err := os.Rename(bad, tfile); err != nil {
+			h.s.Machine("rename: %v", err)
+			return false
+		}
+		target := filepath.Join(h.dir, "singlebad.db")
+		os.Remove(target)
+		res := try(func() { _, err = tools.LoadTable(c.table, target) })
+		if res == "" && err == nil {
+			h.fail("C20/tools", "C20/tools/load-accepted-duplicate", "LoadTable accepted a dump of table %s that declares %s although two rows hold the same values in those columns", c.table, c.to)
+			return false
+		}
+		h.ri.Count("tools.loadtable-refused-duplicate", 1)
+		os.Remove(target)
+	}
+	os.Remove(tfile)
 	return !h.s.Over()
 }
